@@ -99,6 +99,11 @@ func init() {
 					enc(":scheme", "https")
 					enc(":path", "/")
 					enc("Bad-Name", "v")
+				case 'V':
+					enc(":method", "GET")
+					enc(":scheme", "https")
+					enc(":path", "/")
+					enc(":authority", "x.test\r\nx-injected: 1")
 				case 'B':
 					enc(":method", "GET")
 					enc(":scheme", "https")
@@ -140,6 +145,12 @@ func init() {
 			case "X":
 				st.fr.AllowIllegalWrites = true
 				st.fr.WritePushPromise(PushPromiseParam{StreamID: u(p[0]), PromiseID: 2, BlockFragment: []byte{0x82}, EndHeaders: true})
+			case "M":
+				// nothing goes on the wire: the client's HPACK encoder will open its next header block with a dynamic table
+				// size update (legal only at the beginning of a block — the server's decoder must have finished the last one)
+				n, _ := strconv.Atoi(rest)
+				st.hpackEnc.SetMaxDynamicTableSize(uint32(n))
+				continue // no frame was written: no reaction slot
 			case "U":
 				st.fr.WriteRawFrame(FrameType(0xfa), 0, 0, []byte{1, 2, 3})
 			case "Z":
